@@ -268,9 +268,17 @@ def judge_fault(v, r, rule, pos, val, g, idx, base):
         v.fail("batch-runner-crashes", f"{label}: run_games raised {type(e).__name__}: {str(e)[:100]} for bad game {g} "
                                        f"in position {where}", sig=f"{rule}:{type(e).__name__}", case=narrowed)
         return
+    from harness.sut import entry_failed_with, entry_not_solved, entry_solved
     e = res.get("bad")
-    if not isinstance(e, dict) or not isinstance(e.get("msg"), str) or \
-            not e["msg"].startswith("Error while solving the game:"):
+    solo_text = None
+    try:
+        r.tad.StochasticGame(prune_states=True, **copy.deepcopy(g)).solve()
+    except ValueError as err:
+        solo_text = str(err)
+    except BaseException:
+        pass
+    if not (isinstance(e, dict) and isinstance(e.get("msg"), str) and e["msg"].strip() and e["msg"] != "Game solved"
+            and (solo_text is None or solo_text.lower() in e["msg"].lower())):
         v.fail("batch-message-missing", f"{label}: run_games entry for the bad game is {e!r}"[:400], sig=rule,
                case=narrowed)
     else:
@@ -278,11 +286,11 @@ def judge_fault(v, r, rule, pos, val, g, idx, base):
         if leaked:
             v.fail("batch-entry-has-results", f"{label}: failed entry carries {leaked}", sig=rule, case=narrowed)
         e2 = res.get("bad_no_prune")
-        if not isinstance(e2, dict) or e2.get("msg") != "Game not solved":
+        if not entry_not_solved(e2):
             v.fail("batch-unpruned-entry", f"{label}: unpruned entry of the bad game is {e2!r}"[:300], sig=rule,
                    case=narrowed)
     for k in ("good_a", "good_a_no_prune", "good_b", "good_b_no_prune"):
-        if not isinstance(res.get(k), dict) or res[k].get("msg") != "Game solved" or res[k].get("rewards") is None:
+        if not entry_solved(res.get(k)):
             v.fail("batch-neighbour-not-solved", f"{label}: {k} is {str(res.get(k))[:200]} with the bad game in "
                                                  f"position {where}", sig=rule, case=narrowed)
             break
